@@ -594,4 +594,103 @@ theorem gen_keys : Gen.Units.key_UNIT_DESCRIPTION = "NI_UnitDescription".toList.
     ∧ Gen.Units.key_UNIT_DESCRIPTION_Y = "NI_UnitDescription_Y".toList.map Char.toNat
     ∧ Gen.Units.key_CHANNEL_NAME = "NI_ChannelName".toList.map Char.toNat := by decide
 
+/-! ### T22: pickle / copy round trip of the extended properties of Scalar, Vector, XYData (`__reduce__` + `_unpickle` + the constructors' units rule) -/
+
+theorem erase_set_absent : ∀ (d : Dict) (k : Str) (v : PVal), d.get k = none → (d.set k v).erase k = d
+  | [], k, v, _ => by simp [Dict.set, Dict.erase]
+  | (k', v') :: r, k, v, h => by
+    unfold Dict.get at h
+    by_cases hk : k' = k
+    · simp [hk] at h
+    · simp only [hk, if_false] at h
+      unfold Dict.set
+      simp only [hk, if_false]
+      unfold Dict.erase
+      simp only [hk, if_false]
+      rw [erase_set_absent r k v h]
+
+theorem del_set_absent (d : Dict) (k : Str) (v : PVal) (h : d.get k = none) : (d.set k v).del k = .ok d := by
+  unfold Dict.del
+  rw [get_set_same]
+  simp [erase_set_absent d k v h]
+
+/-- the units rule with the default `""`: an absent entry is added (empty), a present one is left alone -/
+theorem ctorUnits_default (chk : Bool) (d : Dict) (k : Str) :
+    ctorUnits chk d k (.str []) = .ok (match d.get k with | none => d.set k (.str []) | some _ => d) := by
+  unfold ctorUnits
+  cases h : d.get k <;> simp [PVal.isStr, PVal.truthy]
+
+/-- **pickle / copy round trip of a Scalar: the rebuilt object's extended properties are exactly the pickled ones** (whether or not
+    they held a units entry) and the rebuild never raises -/
+theorem gen_Scalar_pickle_props (d : Dict) : Gen.Units.Scalar_unpickle_props d = .ok d := by
+  unfold Gen.Units.Scalar_unpickle_props
+  rw [gen_Scalar_ctor_units, ctorUnits_default]
+  cases h : d.get Gen.Units.key_UNIT_DESCRIPTION with
+  | none => simp [Except.bind, del_set_absent d _ _ h]
+  | some v => simp [Except.bind]
+
+theorem gen_Vector_pickle_props (d : Dict) : Gen.Units.Vector_unpickle_props d = .ok d := by
+  unfold Gen.Units.Vector_unpickle_props
+  rw [gen_Vector_ctor_units, ctorUnits_default]
+  cases h : d.get Gen.Units.key_UNIT_DESCRIPTION with
+  | none => simp [Except.bind, del_set_absent d _ _ h]
+  | some v => simp [Except.bind]
+
+theorem erase_set_comm : ∀ (d : Dict) (k k' : Str) (v : PVal), k' ≠ k → (d.set k' v).erase k = (d.erase k).set k' v
+  | [], k, k', v, h => by simp [Dict.set, Dict.erase, h]
+  | (k2, v2) :: r, k, k', v, h => by
+    have ih := erase_set_comm r k k' v h
+    by_cases h1 : k2 = k'
+    · subst h1
+      simp [Dict.set, Dict.erase, h]
+    · by_cases h2 : k2 = k
+      · subst h2
+        simp [Dict.set, Dict.erase, h1, ih]
+      · simp [Dict.set, Dict.erase, h1, h2, ih]
+
+theorem keys_xy_distinct : Gen.Units.key_UNIT_DESCRIPTION_X ≠ Gen.Units.key_UNIT_DESCRIPTION_Y := by decide
+
+/-- the same for XYData and its two units entries -/
+theorem gen_XYData_pickle_props (d : Dict) : Gen.Units.XYData_unpickle_props d = .ok d := by
+  unfold Gen.Units.XYData_unpickle_props
+  rw [gen_XYData_ctor_x_units, ctorUnits_default]
+  simp only [Except.bind]
+  rw [gen_XYData_ctor_y_units, ctorUnits_default]
+  simp only
+  have hne := keys_xy_distinct
+  cases hx : d.get Gen.Units.key_UNIT_DESCRIPTION_X with
+  | none =>
+    cases hy : d.get Gen.Units.key_UNIT_DESCRIPTION_Y with
+    | none =>
+      have hy' : (d.set Gen.Units.key_UNIT_DESCRIPTION_X (.str [])).get Gen.Units.key_UNIT_DESCRIPTION_Y = none := by
+        rw [get_set_other _ _ _ _ hne]; exact hy
+      simp only [hy', List.filter, hx, hy, Option.isNone_none, List.foldlM, bind, Except.bind]
+      have hgx : ((d.set Gen.Units.key_UNIT_DESCRIPTION_X (.str [])).set Gen.Units.key_UNIT_DESCRIPTION_Y (.str [])).get Gen.Units.key_UNIT_DESCRIPTION_X = some (.str []) := by
+        rw [get_set_other _ _ _ _ (Ne.symm hne), get_set_same]
+      have hdx : Dict.del ((d.set Gen.Units.key_UNIT_DESCRIPTION_X (.str [])).set Gen.Units.key_UNIT_DESCRIPTION_Y (.str [])) Gen.Units.key_UNIT_DESCRIPTION_X
+          = .ok (d.set Gen.Units.key_UNIT_DESCRIPTION_Y (.str [])) := by
+        unfold Dict.del
+        rw [hgx]
+        simp only [Option.isSome_some, if_true]
+        rw [erase_set_comm _ _ _ _ (Ne.symm hne), erase_set_absent d _ _ hx]
+      rw [hdx]
+      simp only
+      rw [del_set_absent d _ _ hy]
+      rfl
+    | some vy =>
+      have hy' : (d.set Gen.Units.key_UNIT_DESCRIPTION_X (.str [])).get Gen.Units.key_UNIT_DESCRIPTION_Y = some vy := by
+        rw [get_set_other _ _ _ _ hne]; exact hy
+      simp only [hy', List.filter, hx, hy, Option.isNone_none, Option.isNone_some, List.foldlM, bind, Except.bind]
+      rw [del_set_absent d _ _ hx]
+      rfl
+  | some vx =>
+    cases hy : d.get Gen.Units.key_UNIT_DESCRIPTION_Y with
+    | none =>
+      simp only [hy, List.filter, hx, Option.isNone_none, Option.isNone_some, List.foldlM, bind, Except.bind]
+      rw [del_set_absent d _ _ hy]
+      rfl
+    | some vy =>
+      simp only [hy, List.filter, hx, Option.isNone_some, List.foldlM, bind, Except.bind]
+      rfl
+
 end Props.C19
